@@ -1921,6 +1921,25 @@ theorem dag_no_recycle_items {g : Graph} {ends : List Nat} {path : List Item} {r
 /-- a stream runs from unit `a` to unit `b` -/
 def FlowEdge (g : Graph) (a b : Nat) : Prop := Edge g [] a b
 
+/-- the stream `s` lies on a cycle: it leaves a unit that is its own sink or downstream of its sink -/
+def OnCycle (g : Graph) (s : Nat) : Prop :=
+  ∃ a b, s ∈ g.outsOf a ∧ g.sinkOf s = some b ∧ (a = b ∨ Reach g [] b a)
+
+theorem onCycleB_sound {g : Graph} {s : Nat} (h : onCycleB g s = true) : OnCycle g s := by
+  unfold onCycleB at h
+  obtain ⟨a, _, ha⟩ := List.any_eq_true.mp h
+  simp only [Bool.and_eq_true] at ha
+  obtain ⟨hc, hm⟩ := ha
+  cases hk : g.sinkOf s with
+  | none => rw [hk] at hm; simp at hm
+  | some b =>
+    rw [hk] at hm
+    simp only [Bool.or_eq_true, beq_iff_eq] at hm
+    refine ⟨a, b, List.contains_iff_mem.mp hc, hk, ?_⟩
+    rcases hm with h | h
+    · exact .inl h
+    · exact .inr (reachesB_sound h)
+
 /-- the flowsheet has a cycle -/
 def Cyclic (g : Graph) : Prop := ∃ u, Reach g [] u u
 
